@@ -365,6 +365,24 @@ fn main() {
             }
         }
     }
+    if args[1] == "hold" {
+        // a foreign tracer (what `strace -p <tid>` or a debugger is to the writer): attach to ONE
+        // thread of some process, keep it in its attach stop, let go when standard input closes
+        let tid: i32 = args.get(2).and_then(|a| a.to_str()).and_then(|a| a.parse().ok()).expect("tid");
+        unsafe {
+            if libc::ptrace(libc::PTRACE_ATTACH, tid, 0, 0) != 0 {
+                println!("failed {}", std::io::Error::last_os_error());
+                return;
+            }
+            let mut st = 0;
+            libc::waitpid(tid, &mut st, libc::__WALL);
+            println!("held");
+            let mut buf = [0u8; 16];
+            while libc::read(0, buf.as_mut_ptr() as *mut _, 16) > 0 {}
+            libc::ptrace(libc::PTRACE_DETACH, tid, 0, 0);
+        }
+        return;
+    }
     let orig_ppid = unsafe { libc::getppid() };
     let spec: Spec = serde_json::from_slice(&std::fs::read(&args[1]).expect("spec")).expect("spec json");
     let mut m = Manifest { pid: std::process::id() as i32, main_tid: gettid(), ..Default::default() };
